@@ -27,6 +27,10 @@
 //   REQ id svc meth payload         peer sends a REQUEST frame ("-" = field absent)
 //   DONE k data                     the test service completes deferred request k
 //   OTHER id                        peer sends a frame of type ERROR
+// case <id> svc=0 sys=1   TWO real channels: the client's (user-owned, as svc=0) on one end of the socketpair, the
+//                         server's, made by the real RpcServer::onConnection, on the other end; no scripted peer.
+//   PUMPS / PUMPC                   the server's / the client's connection reads what has arrived (all complete frames)
+//                                   (CALL, F/R/S, BURST on the client; DONE completes a request the service deferred)
 //   SER type id svc meth req resp err   RpcMessage built field by field ("~" = field absent, "-" = present and empty,
 //                                   else hex; type/err by number), printed as wire:<hex of SerializeAsString>
 //   WIRE hex                        RpcMessage::ParsePartialFromString + IsInitialized (= ParseFromString without the
@@ -99,6 +103,7 @@ int __real_pthread_mutex_lock(pthread_mutex_t* m);
 // ------------------------------------------------------------------ state
 static EventLoop* g_loop = NULL;
 static TcpConnectionPtr g_conn;
+static TcpConnectionPtr g_sconn;       // sys=1: the server's end
 static RpcChannel* g_chan = NULL;
 static int g_connfd = -1, g_peer = -1;
 static std::vector<string> g_ev;
@@ -385,6 +390,7 @@ static void doCall(CallRec* rec, const string& meth, const string& reqdata)
   c19::TestMsg req;
   req.set_data(reqdata);
   if (meth == "Echo") stub.Echo(NULL, &req, rec->resp, rec->done);
+  else if (meth == "Ping") { c19::OtherService::Stub other(g_chan); other.Ping(NULL, &req, rec->resp, rec->done); }
   else stub.Defer(NULL, &req, rec->resp, rec->done);
 }
 
@@ -440,6 +446,7 @@ int main()
   bool obs = false;          // observation mode: out-of-contract calls (response == NULL) are made all the same
   bool down = false;         // the connection went DOWN in this case
   int mode = 0;              // svc=<mode>
+  bool sysmode = false;      // sys=1: two channels
   int64_t lastNext = 0;      // id_ as last seen (a destroyed channel cannot be asked)
   string line;
   while (std::getline(std::cin, line))
@@ -463,12 +470,15 @@ int main()
       down = false;
       mode = 0;
       lastNext = 0;
+      sysmode = false;
       for (size_t i = 2; i < w.size(); ++i)
       {
         if (w[i] == "svc=1") { svc = true; mode = 1; }
         if (w[i] == "svc=2") mode = 2;
         if (w[i] == "obs=1") obs = true;
+        if (w[i] == "sys=1") sysmode = true;
       }
+
       InetAddress a(1), b(2);
       g_conn.reset(new TcpConnection(&loop, "c" + w[1], sv[0], a, b));
       g_conn->setCloseCallback([&loop](const TcpConnectionPtr& c) {
@@ -491,6 +501,16 @@ int main()
         g_conn->connectEstablished();
       }
       g_chanMutex = g_chan->mutex_.getPthreadMutex();
+      if (sysmode)
+      {
+        g_peer = -1;                       // nobody scripts the other end: it is the server's connection
+        g_sconn.reset(new TcpConnection(&loop, "s" + w[1], sv[1], b, a));
+        g_sconn->setCloseCallback([&loop](const TcpConnectionPtr& c) {
+          loop.queueInLoop(std::bind(&TcpConnection::connectDestroyed, c));
+        });
+        g_sconn->setConnectionCallback(std::bind(&RpcServer::onConnection, &server, _1));
+        g_sconn->connectEstablished();
+      }
       string s = "NULL";
       if (g_chan->services_)
       {
@@ -504,6 +524,7 @@ int main()
           for (int i = 0; i < d->method_count(); ++i) { if (i) s += "+"; s += d->method(i)->name(); }
         }
       }
+      if (sysmode) s = "SYS";
       printf("case %s services=%s\n", w[1].c_str(), s.c_str());
       continue;
     }
@@ -528,6 +549,14 @@ int main()
         g_conn->forceCloseInLoop();
       loop.doPendingFunctors();
       loop.doPendingFunctors();
+      if (g_sconn)
+      {
+        if (g_sconn->channel_->addedToLoop_ && (g_sconn->state_ == TcpConnection::kConnected || g_sconn->state_ == TcpConnection::kDisconnecting))
+          g_sconn->forceCloseInLoop();
+        loop.doPendingFunctors();
+        loop.doPendingFunctors();
+        g_sconn.reset();
+      }
       g_conn.reset();
       ownChannel.reset();                // ~RpcChannel: deletes the response and the closure of every outstanding call
       loop.doPendingFunctors();
@@ -558,7 +587,7 @@ int main()
       for (std::map<int, Deferred>::iterator it = g_deferred.begin(); it != g_deferred.end(); ++it)
         if (!it->second.completed) { delete it->second.done; delete it->second.response; }   // a service that never answers (user code)
       g_deferred.clear();
-      ::close(g_peer);
+      if (g_peer >= 0) ::close(g_peer);
       g_connfd = -1;
       g_peer = -1;
       printf("end\n");
@@ -566,7 +595,8 @@ int main()
       continue;
     }
 
-    if (k == "CALL" || k == "CALLA")
+    if (sysmode && (k == "RESP" || k == "REQ" || k == "OTHER" || k == "CALLA" || k == "DOWN")) rejected = true;   // no scripted peer
+    else if (k == "CALL" || k == "CALLA")
     {
       RpcMessage ans;
       bool corrupt = false;
@@ -745,6 +775,21 @@ int main()
       m.set_type(ERROR);
       m.set_id(static_cast<uint64_t>(strtoll(w[1].c_str(), NULL, 10)));
       if (down) rejected = true; else feed(m);
+    }
+    else if (k == "PUMPS" || k == "PUMPC")
+    {
+      TcpConnectionPtr c = (k == "PUMPS") ? g_sconn : g_conn;
+      if (!sysmode || !c) rejected = true;
+      else
+      {
+        struct pollfd pf = { c->channel_->fd(), POLLIN, 0 };
+        if (::poll(&pf, 1, 0) > 0 && (pf.revents & POLLIN))
+        {
+          Channel* ch = c->channel_.get();
+          ch->set_revents(POLLIN);
+          ch->handleEvent(Timestamp::now());
+        }
+      }
     }
     else if (k == "SER")
     {
